@@ -88,6 +88,16 @@ package sbom
 //@   invariant L3: [C09:inv] (existingEdge in elems(ret.Edges))
 //@   invariant L4: [C09:inv] forall r string :: (r in elems(ret.RootElements)) <==> ((r in elems(nl.RootElements)) || (r in elemsn(nl2.RootElements, _i)))
 //@   invariant L4: [C09:inv] forall k string :: (k in rootNodes) ==> (k in elems(nl.RootElements))
+//@   ensures [C09:union:order] len(result.Nodes) >= len(nl.Nodes) && (forall i0 int :: 0 <= i0 && i0 < len(nl.Nodes) ==> result.Nodes[i0].Id == nl.Nodes[i0].Id)
+//@   ensures [C09:union:secondWins:Version] (uniqueIdx(nl) && uniqueIdx(nl2)) ==> (forall i0 int, j int :: 0 <= i0 && i0 < len(nl.Nodes) && 0 <= j && j < len(nl2.Nodes) && nl2.Nodes[j].Id == nl.Nodes[i0].Id && nl2.Nodes[j].Version != "" ==> result.Nodes[i0].Version == nl2.Nodes[j].Version)
+//@   ensures [C09:union:firstKept:Version] (uniqueIdx(nl) && uniqueIdx(nl2)) ==> (forall i0 int, j int :: 0 <= i0 && i0 < len(nl.Nodes) && 0 <= j && j < len(nl2.Nodes) && nl2.Nodes[j].Id == nl.Nodes[i0].Id && nl2.Nodes[j].Version == "" ==> result.Nodes[i0].Version == nl.Nodes[i0].Version)
+//@   ensures [C09:union:untouched:Version] (uniqueIdx(nl) && uniqueIdx(nl2)) ==> (forall i0 int :: 0 <= i0 && i0 < len(nl.Nodes) && (forall j int :: 0 <= j && j < len(nl2.Nodes) ==> nl2.Nodes[j].Id != nl.Nodes[i0].Id) ==> result.Nodes[i0].Version == nl.Nodes[i0].Version)
+//@   invariant L0: [C09:inv] len(ret.Nodes) == _i && (forall i0 int :: 0 <= i0 && i0 < _i ==> ret.Nodes[i0] != nil && fresh(ret.Nodes[i0]) && ret.Nodes[i0].Id == nl.Nodes[i0].Id && ret.Nodes[i0].Version == nl.Nodes[i0].Version)
+//@   invariant L1: [C09:inv] len(ret.Nodes) >= len(nl.Nodes) && (forall i0 int :: 0 <= i0 && i0 < len(nl.Nodes) ==> ret.Nodes[i0] != nil && fresh(ret.Nodes[i0]) && ret.Nodes[i0].Id == nl.Nodes[i0].Id)
+//@   invariant L1: [C09:inv] uniqueIdx(nl) ==> (forall i0 int :: 0 <= i0 && i0 < len(nl.Nodes) ==> (nl.Nodes[i0].Id in nodeindex) && nodeindex[nl.Nodes[i0].Id] == ret.Nodes[i0])
+//@   invariant L1: [C09:inv] (uniqueIdx(nl) && uniqueIdx(nl2)) ==> (forall i0 int, j int :: 0 <= i0 && i0 < len(nl.Nodes) && 0 <= j && j < _i && nl2.Nodes[j].Id == nl.Nodes[i0].Id && nl2.Nodes[j].Version != "" ==> ret.Nodes[i0].Version == nl2.Nodes[j].Version)
+//@   invariant L1: [C09:inv] (uniqueIdx(nl) && uniqueIdx(nl2)) ==> (forall i0 int, j int :: 0 <= i0 && i0 < len(nl.Nodes) && 0 <= j && j < _i && nl2.Nodes[j].Id == nl.Nodes[i0].Id && nl2.Nodes[j].Version == "" ==> ret.Nodes[i0].Version == nl.Nodes[i0].Version)
+//@   invariant L1: [C09:inv] (uniqueIdx(nl) && uniqueIdx(nl2)) ==> (forall i0 int :: 0 <= i0 && i0 < len(nl.Nodes) && (forall j int :: 0 <= j && j < _i ==> nl2.Nodes[j].Id != nl.Nodes[i0].Id) ==> ret.Nodes[i0].Version == nl.Nodes[i0].Version)
 //@   ensures [C08:union:normalised] normalisedNL(result)
 //@   invariant L0: [C09:inv] !(nil in elems(ret.Nodes)) && !(nil in elems(ret.Edges)) && (forall p *Node :: (p in elems(ret.Nodes)) ==> fresh(p))
 //@   invariant L0: [C09:inv] (forall x string :: (x in fieldset(ret.Nodes, Id)) <==> (x in fieldsetn(nl.Nodes, Id, _i)))
